@@ -60,7 +60,7 @@ impl Property for C10 {
         }).boxed()
     }
     fn exhaustive_subspaces(&self, _tier: Tier) -> Vec<String> {
-        vec!["all values with n<=8 x every partner length <=12 (>= significant bits) x 19 types".into()]
+        vec!["all values with n<=8 x every partner length <=12 (>= significant bits) x 20 types".into()]
     }
     fn enumerate(&self, _tier: Tier, sh: &mut Shard, f: &mut dyn FnMut(C10Case) -> bool) {
         for t in 0..NT {
